@@ -780,6 +780,23 @@ class CourierClient(metaclass=func_utils.SingletonMeta):
   def next_from_generator(self) -> futures.Future[Any]:
     return self.call(courier_method='next_from_generator')
 
+  async def _await_transport(self, state: futures.Future[Any]) -> Any:
+    """Awaits a courier call, an expired deadline becomes a TimeoutError.
+
+    Only the error of the transport is inspected here: an exception of the
+    application travels inside the payload and may carry any attributes (e.g.
+    `code == 4`) without being mistaken for a deadline.
+
+    Args:
+      state: The future of a courier call.
+    """
+    try:
+      return await asyncio.wrap_future(state)
+    except Exception as e:  # pylint: disable=broad-exception-caught
+      if is_timeout(e):
+        raise TimeoutError(f'Deadline exceeded on {self.address}: {e}') from e
+      raise
+
   # TODO: b/356633410 - Deprecate async_iterate in favor of async_iter.
   async def async_iterate(
       self,
@@ -800,13 +817,13 @@ class CourierClient(metaclass=func_utils.SingletonMeta):
       init_state = self.call(
           *task.args, courier_method='init_generator', **task.kwargs
       )
-      if (init_state := await asyncio.wrap_future(init_state)) is not None:
+      if (init_state := await self._await_transport(init_state)) is not None:
         raise init_state
       exhausted = False
       while not exhausted:
         output_state = self.next_batch_from_generator(self.iterate_batch_size)
         output_batch = lazy_fns.maybe_make(
-            await asyncio.wrap_future(output_state)
+            await self._await_transport(output_state)
         )
         assert isinstance(output_batch, list), f'{type(output_batch)}'
         for elem in output_batch:
